@@ -10,7 +10,8 @@ from fractions import Fraction
 from harness import util
 
 THEOREMS = ['C19_unflatten_flatten', 'C19_unflatten_flatten_paths', 'C19_dict_eq_is_pathwise',
-            'C19_flatten_unflatten', 'C19_replace_structure', 'C19_unpack_pack', 'C19_unstack_stack', 'C19_concat_split', 'C19_empty_pytree',
+            'C19_flatten_unflatten', 'C19_replace_structure', 'C19_unpack_pack', 'C19_unstack_stack', 'C19_concat_split', 'C19_split_axis_concat',
+            'C19_empty_pytree',
             'C19_down_up_identity', 'C19_upsample_coef', 'C19_hyps_satisfiable', 'C19_regressions',
             'C19_replace_example']
 LEVEL = 'proof'
